@@ -149,7 +149,11 @@ def make_session_workload(seed, capacity):
         lines.append("thread %d" % t)
         for _ in range(r.choice([1, 2, 3])):
             lines.append("op enter")
-            if r.random() < 0.5:
+            if r.random() < 0.25:
+                # stay open while the (free-running) epoch thread would like to advance twice
+                lines.append("op sleep_epochs 2")
+                lines.append("op probe")
+            elif r.random() < 0.5:
                 lines.append("op probe")
             if r.random() < 0.85:
                 lines.append("op leave")
@@ -633,8 +637,48 @@ def make_version_workload(seed):
     return "\n".join(lines) + "\n", {}, {"shape": "version", "threads": nthreads, "kind": "version"}
 
 
+def make_rmrace_workload(seed):
+    """several sessions remove (and re-insert) the SAME keys: the loser of a remove/remove race must
+    find the key gone under the lock and leave without touching the node; values inline
+    (pointer-sized, the slot is not reset by a remove) or out-of-line"""
+    r = random.Random("rmrace/%d" % seed)
+    shape = r.choice(["single", "single", "full", "two_level", "eight"])
+    keys = shape_keys(r, shape)
+    if shape == "full":
+        keys = keys[:14]
+    inline = r.random() < 0.6
+    lines = ["storage 61", "bg 0"]
+    pre = {}
+    for j, k in enumerate(keys):
+        if inline:
+            lines.append("pre puti %s %x" % (hx(k), 0x700 + j))
+            pre[k] = "i%016x" % (0x700 + j)
+        else:
+            lines.append("pre put %s %s" % (hx(k), hx(b"p" + k[-3:])))
+            pre[k] = (b"p" + k[-3:]).hex()
+    hot = r.sample(sorted(pre), min(len(pre), r.choice([1, 1, 2])))
+    nthreads = r.choice([2, 3, 3])
+    for t in range(nthreads):
+        lines.append("thread %d" % t)
+        for i in range(r.choice([1, 2, 3])):
+            k = r.choice(hot)
+            x = r.random()
+            if x < 0.6:
+                lines.append("op remove %s" % hx(k))
+            elif x < 0.85:
+                if inline:
+                    lines.append("op puti %s %x" % (hx(k), 0x2000 + 64 * t + i))
+                else:
+                    lines.append("op put %s %s 0" % (hx(k), hx(b"%dv%d" % (t, i))))
+            else:
+                lines.append("op get %s" % hx(k))
+    return "\n".join(lines) + "\n", pre, {"shape": "rmrace/" + shape, "threads": nthreads, "kind": "rmrace"}
+
+
 def make_workload(seed, kind, shape=None):
     """returns (text, pre dict, meta)"""
+    if kind == "rmrace":
+        return make_rmrace_workload(seed)
     if kind == "version":
         return make_version_workload(seed)
     if kind == "collapse":
@@ -683,6 +727,12 @@ def make_workload(seed, kind, shape=None):
     r.shuffle(alpha)
     alpha = alpha[: r.choice([2, 3, 4, 6])]
     nthreads = r.choice([2, 2, 3, 3, 4])
+    inline_vals = kind == "point" and r.random() < 0.3
+    if inline_vals:
+        # the contended keys start out with inline values too
+        for j, k in enumerate(a for a in alpha if a in pre):
+            lines.insert(2 + len(keys), "pre puti %s %x" % (hx(k), 0x900 + j))
+            pre[k] = "i%016x" % (0x900 + j)
     for t in range(nthreads):
         lines.append("thread %d" % t)
         role = "point"
@@ -715,7 +765,11 @@ def make_workload(seed, kind, shape=None):
                     else:
                         lines.append("op get %s" % hx(r.choice(alpha)))
                 elif x < 0.35:
-                    lines.append("op put %s %s %d" % (hx(k), hx(val), 1 if r.random() < 0.25 else 0))
+                    if inline_vals and r.random() < 0.6:
+                        # a pointer-sized value stored in the slot itself (remove does not reset such a slot)
+                        lines.append("op puti %s %x" % (hx(k), 0x1000 + 64 * t + i))
+                    else:
+                        lines.append("op put %s %s %d" % (hx(k), hx(val), 1 if r.random() < 0.25 else 0))
                 elif x < 0.6:
                     lines.append("op remove %s" % hx(k))
                 else:
